@@ -248,6 +248,7 @@ func runC07(c *Check) {
 	})
 
 	c.Rule("C07.RECHECK", func() { checkRecheck(c) })
+	extraC07(c)
 }
 
 func runC11(c *Check) {
@@ -255,59 +256,7 @@ func runC11(c *Check) {
 	c.Rule("C11.MARK-SWITCH", func() { checkOldMasterHandled(c) })
 	c.Rule("C11.MARK-STALE", func() { checkStaleMaster(c) })
 
-	c.Rule("C11.ORDER", func() {
-		S := p.MustFunc(fnSetRecovery)
-		sfa := p.FA(S)
-		sn := p.Name(S)
-		marks := p.Calls(S, "(app.IAppDCS).SetRecovery")
-		c.Req(len(marks) == 1, sn, "-", "mark", "the mark is created at one site", fmt.Sprintf("%d", len(marks)))
-		for _, mk := range marks {
-			c.Req(p.T(mk.Common().Args[0]).V == ssa.Value(S.Params[1]), sn, p.InstrPos(mk), "mark:host", "the host marked is the host given", "")
-			var filt *Term
-			published := func(l Lit) bool {
-				if !p.NilErr("(app.IAppDCS).SetActiveNodes")(l) {
-					return false
-				}
-				ci := callInstr(l)
-				if ci == nil {
-					return false
-				}
-				filt = p.T(ci.Common().Args[0])
-				return true
-			}
-			if !c.Gate(sfa, mk, "mark:after-publish", "the mark is created only after the active list without the host was published successfully", published) {
-				continue
-			}
-			okf := p.IsCall(filt, "util.FilterStrings") && ResultOf(filt.Args[0], 0) != nil && p.IsCall(ResultOf(filt.Args[0], 0), "(app.IAppDCS).GetActiveNodes")
-			c.Req(okf, sn, p.InstrPos(mk), "publish:source", "the list published is the current list, filtered", "is "+filt.String())
-			if okf {
-				mc, ok := filt.Args[1].V.(*ssa.MakeClosure)
-				okc := false
-				if ok {
-					cl := mc.Fn.(*ssa.Function)
-					for _, r := range Returns(cl) {
-						t := p.T(r.Results[0])
-						if t.Op == "bin" && t.Name == "!=" {
-							a, b := t.Args[0], t.Args[1]
-							isParam := func(x *Term) bool { return x.V == ssa.Value(cl.Params[0]) }
-							isHost := func(x *Term) bool { return x.V == ssa.Value(S.Params[1]) }
-							okc = (isParam(a) && isHost(b)) || (isParam(b) && isHost(a))
-						}
-					}
-				}
-				c.Req(okc, sn, p.InstrPos(mk), "publish:filter", "the filter removes exactly the marked host", "")
-			}
-			c.Gate(sfa, mk, "publish:list-read", "the current list was read without error", p.NilErr("(app.IAppDCS).GetActiveNodes"))
-		}
-		// the low-level mark is a create of recovery/<host>
-		have := false
-		for _, e := range c.eff.Collect(S, WalkOpts{}) {
-			if e.Kind == "DCS" && e.Op == "Create" && e.Key == "recovery/*" {
-				have = true
-			}
-		}
-		c.Req(have, sn, "-", "mark:effect", "marking creates recovery/<host>", "")
-	})
+	c.Rule("C11.ORDER", func() { checkMarkOrder(c) })
 
 	c.Rule("C11.EXCL", func() { checkMemberExclusion(c, "recovery") })
 
@@ -635,4 +584,80 @@ func checkMemberExclusion(c *Check, what string) {
 		}
 	}
 	c.Req(n >= 3, name, "-", "member-appends", "membership append sites found", fmt.Sprintf("%d", n))
+}
+
+// checkMarkOrder: marking a host for recovery first publishes the active list without exactly that host and
+// creates the mark only after that write succeeded (shared by C11.ORDER and C07.MARK: a crash between the two
+// writes must leave a list the successor can still approve the request with).
+func checkMarkOrder(c *Check) {
+	p := c.p
+		S := p.MustFunc(fnSetRecovery)
+		sfa := p.FA(S)
+		sn := p.Name(S)
+		marks := p.Calls(S, "(app.IAppDCS).SetRecovery")
+		c.Req(len(marks) == 1, sn, "-", "mark", "the mark is created at one site", fmt.Sprintf("%d", len(marks)))
+		for _, mk := range marks {
+			c.Req(p.T(mk.Common().Args[0]).V == ssa.Value(S.Params[1]), sn, p.InstrPos(mk), "mark:host", "the host marked is the host given", "")
+			var filt *Term
+			published := func(l Lit) bool {
+				if !p.NilErr("(app.IAppDCS).SetActiveNodes")(l) {
+					return false
+				}
+				ci := callInstr(l)
+				if ci == nil {
+					return false
+				}
+				filt = p.T(ci.Common().Args[0])
+				return true
+			}
+			if !c.Gate(sfa, mk, "mark:after-publish", "the mark is created only after the active list without the host was published successfully", published) {
+				continue
+			}
+			// two idioms: keep-filter (FilterStrings, predicate n != host) or delete-filter (slices.DeleteFunc, predicate n == host)
+			keep := p.IsCall(filt, "util.FilterStrings")
+			del := false
+			if filt.Op == "call" && filt.In != nil {
+				for _, n := range p.CalleeNames(filt.In.(ssa.CallInstruction)) {
+					if strings.HasPrefix(n, "slices.DeleteFunc") {
+						del = true
+					}
+				}
+			}
+			okf := (keep || del) && len(filt.Args) == 2 && ResultOf(filt.Args[0], 0) != nil && p.IsCall(ResultOf(filt.Args[0], 0), "(app.IAppDCS).GetActiveNodes")
+			c.Req(okf, sn, p.InstrPos(mk), "publish:source", "the list published is the current list, filtered", "is "+filt.String())
+			if okf {
+				mc, ok := filt.Args[1].V.(*ssa.MakeClosure)
+				okc := false
+				if ok {
+					cl := mc.Fn.(*ssa.Function)
+					rets := Returns(cl)
+					okc = len(rets) > 0
+					for _, r := range rets {
+						t := p.T(r.Results[0])
+						want := "!="
+						if del {
+							want = "=="
+						}
+						okr := false
+						if t.Op == "bin" && t.Name == want {
+							a, b := t.Args[0], t.Args[1]
+							isParam := func(x *Term) bool { return x.V == ssa.Value(cl.Params[0]) }
+							isHost := func(x *Term) bool { return x.V == ssa.Value(S.Params[1]) }
+							okr = (isParam(a) && isHost(b)) || (isParam(b) && isHost(a))
+						}
+						okc = okc && okr
+					}
+				}
+				c.Req(okc, sn, p.InstrPos(mk), "publish:filter", "the filter removes exactly the marked host (keep-filter with n != host, or delete-filter with n == host)", "")
+			}
+			c.Gate(sfa, mk, "publish:list-read", "the current list was read without error", p.NilErr("(app.IAppDCS).GetActiveNodes"))
+		}
+		// the low-level mark is a create of recovery/<host>
+		have := false
+		for _, e := range c.eff.Collect(S, WalkOpts{}) {
+			if e.Kind == "DCS" && e.Op == "Create" && e.Key == "recovery/*" {
+				have = true
+			}
+		}
+		c.Req(have, sn, "-", "mark:effect", "marking creates recovery/<host>", "")
 }
